@@ -20,9 +20,21 @@
 (* pout: "lost" (lost or CRC error at the central), "ok", "nak" (the central uses the   *)
 (*       acknowledgement but has no room for the data: flow control)                   *)
 (*                                                                                     *)
-(* A PDU is a record [id, len, llid]; id 0 = the empty PDU; data PDUs of each direction *)
-(* are numbered 1, 2, 3... in the order they are first handed to the link layer, so the *)
-(* CCM packet counter a data PDU is (de)crypted with is id - 1 (ghost counter).         *)
+(* A PDU is a record [id, len, llid]; id 0 = a PDU without payload; the non-empty PDUs   *)
+(* of each direction are numbered 1, 2, 3... in the order they are first handed to the  *)
+(* link layer, so the CCM packet counter a non-empty PDU is (de)crypted with is id - 1  *)
+(* (ghost counter).                                                                    *)
+(*                                                                                     *)
+(* Reserved LLID (0b00): the central may send PDUs with LLID 0, with and without        *)
+(* payload. The properties only say this about them: a PDU with payload was encrypted   *)
+(* with the central's packet counter, so *if* the peripheral acknowledges it as new it  *)
+(* must count it (C16), and it is acknowledged at most once like any PDU (C15, C17).    *)
+(* Everything else is left open: the peripheral may refuse it (accC = FALSE: NESN stays, *)
+(* the central repeats it), may or may not use the acknowledgement in its header, and   *)
+(* may hand it to the upper layer or drop it. The last choice is resolved lazily: an    *)
+(* accepted reserved PDU is put into `stored`; it is moved to `dropped` when the upper  *)
+(* layer's view shows that it is not there (a younger PDU or nothing is read, or        *)
+(* next_received() shows nothing: parameter vis of Read / Exchange).                   *)
 EXTENDS Naturals, Sequences
 
 CONSTANTS MaxC,     \* number of data PDUs the central sends           (bounds Next only)
@@ -47,17 +59,25 @@ VARIABLES
     pNesn,      \* NESN the peripheral answers with
     stored,     \* received data PDUs waiting in the receive buffer
     delivered,  \* received data PDUs handed to the upper layer
+    dropped,    \* accepted (acknowledged, counted) reserved-LLID PDUs that never reached the upper layer (ghost)
     rxCtr,      \* receive packet counter  (number of increment_receive_packet_counter calls)
     txCtr,      \* transmit packet counter (number of increment_transmit_packet_counter calls)
     \* ---- channel ----
     air         \* <<answer>> of the peripheral in the running connection event, or <<>>
 
 cvars == <<cSn, cNesn, cCur, cData, cAcked, cGot>>
-pvars == <<committed, pOut, pSent, pSn, pNesn, stored, delivered, rxCtr, txCtr>>
+pvars == <<committed, pOut, pSent, pSn, pNesn, stored, delivered, dropped, rxCtr, txCtr>>
 vars  == <<cvars, pvars, air>>
 
 Empty      == [id |-> 0, len |-> 0, llid |-> 1]
-IsData(p)  == p.id # 0
+Empty0     == [id |-> 0, len |-> 0, llid |-> 0]     \* no payload, reserved LLID
+IsData(p)  == p.id # 0                              \* has a payload (and a packet counter)
+Rsv(p)     == p.llid = 0
+AllRsv(s)  == \A i \in 1..Len(s) : Rsv(s[i])
+Real(s)    == SelectSeq(s, LAMBDA p : ~Rsv(p))
+\* vis = next_received() shows a PDU, s = the accepted PDUs not yet read: when nothing is shown, only reserved-LLID
+\* PDUs can be outstanding (they were dropped)
+Settled(s, vis) == IF vis THEN s # <<>> ELSE AllRsv(s)
 Flip(b)    == 1 - b
 Outcomes   == {"lost", "crc", "nobuf", "mic", "ok"}
 POutcomes  == {"lost", "ok", "nak"}
@@ -65,7 +85,7 @@ POutcomes  == {"lost", "ok", "nak"}
 Init ==
     /\ cSn = 0 /\ cNesn = 0 /\ cCur = <<>> /\ cData = <<>> /\ cAcked = 0 /\ cGot = <<>>
     /\ committed = <<>> /\ pOut = <<>> /\ pSent = 0 /\ pSn = 0 /\ pNesn = 0
-    /\ stored = <<>> /\ delivered = <<>> /\ rxCtr = 0 /\ txCtr = 0
+    /\ stored = <<>> /\ delivered = <<>> /\ dropped = <<>> /\ rxCtr = 0 /\ txCtr = 0
     /\ air = <<>>
 
 -----------------------------------------------------------------------------
@@ -76,13 +96,19 @@ Commit(p, r) ==
     /\ p.id = Len(committed) + 1 /\ p.len > 0 /\ p.llid \in 1..3
     /\ (~r /\ RoomRule) => Len(committed) > txCtr
     /\ committed' = IF r THEN Append(committed, p) ELSE committed
-    /\ UNCHANGED <<cvars, pOut, pSent, pSn, pNesn, stored, delivered, rxCtr, txCtr, air>>
+    /\ UNCHANGED <<cvars, pOut, pSent, pSn, pNesn, stored, delivered, dropped, rxCtr, txCtr, air>>
 
-\* next_received() / free_received(): p = the oldest stored PDU, or Empty when there is none
-Read(p) ==
-    /\ IF stored = <<>>
-       THEN p = Empty /\ UNCHANGED <<stored, delivered>>
-       ELSE p = Head(stored) /\ stored' = Tail(stored) /\ delivered' = Append(delivered, p)
+\* next_received() / free_received(): p = the oldest stored PDU, or Empty when there is none; reserved-LLID PDUs
+\* older than p (all of them if p = Empty) turn out to have been dropped; vis = a further PDU is shown afterwards
+Read(p, vis) ==
+    /\ \E k \in 0..Len(stored) :
+         LET rest == SubSeq(stored, k + 2, Len(stored)) IN
+         /\ AllRsv(SubSeq(stored, 1, k))
+         /\ IF k = Len(stored) THEN p = Empty /\ delivered' = delivered
+                               ELSE p = stored[k + 1] /\ delivered' = Append(delivered, p)
+         /\ Settled(rest, vis)
+         /\ stored'  = IF vis THEN rest ELSE <<>>
+         /\ dropped' = dropped \o SubSeq(stored, 1, k) \o (IF vis THEN <<>> ELSE rest)
     /\ UNCHANGED <<cvars, committed, pOut, pSent, pSn, pNesn, rxCtr, txCtr, air>>
 
 -----------------------------------------------------------------------------
@@ -91,24 +117,26 @@ CentralSends(c) ==
     /\ c.sn = cSn /\ c.nesn = cNesn
     /\ IF cCur # <<>>
        THEN c.pdu = cCur[1]                                     \* retransmission until acknowledged
-       ELSE \/ c.pdu = Empty
-            \/ c.pdu.id = Len(cData) + 1 /\ c.pdu.len > 0 /\ c.pdu.llid \in 1..3
+       ELSE \/ c.pdu \in {Empty, Empty0}
+            \/ c.pdu.id = Len(cData) + 1 /\ c.pdu.len > 0 /\ c.pdu.llid \in 0..3
 
 (* The peripheral's obligations for one received PDU (Core specification 4.5.9):        *)
 (*  - NESN toggles iff a *new* PDU (SN = NESN) arrived with valid CRC and valid MIC and *)
-(*    was stored (empty PDUs need no storage); nothing else changes NESN        [C15,C17]*)
-(*  - the receive counter advances iff that new PDU is not empty                   [C16]*)
+(*    was stored (empty PDUs need no storage; a PDU with the reserved LLID may be refused *)
+(*    (accC) and need not be kept); nothing else changes NESN                   [C15,C17]*)
+(*  - the receive counter advances iff that new PDU is not empty - whatever its LLID [C16]*)
 (*  - the PDU sent last is acknowledged iff the central's NESN differs from its SN; the  *)
 (*    acknowledgement must be used when the PDU was valid ("ok"), may be used when the   *)
-(*    header had a valid CRC ("mic", "nobuf"; ackC) and must not be used after a CRC     *)
-(*    error; the transmit counter advances iff a non-empty PDU is acknowledged [C15,C16]*)
+(*    header had a valid CRC ("mic", "nobuf", reserved LLID; ackC) and must not be used    *)
+(*    after a CRC error; the transmit counter advances iff a non-empty PDU is acknowledged *)
+(*                                                                              [C15,C16]*)
 (*  - an unacknowledged PDU is sent again unchanged; after an acknowledgement (or at the *)
 (*    start) the next committed PDU or an empty PDU (dataC) follows with the next SN [C15]*)
-Answer(c, out, ackC, dataC) ==
-    LET accept  == out = "ok" /\ c.sn = pNesn
+Answer(c, out, ackC, dataC, accC) ==
+    LET accept  == out = "ok" /\ c.sn = pNesn /\ (Rsv(c.pdu) => accC)
         store   == accept /\ IsData(c.pdu)
         ackable == pOut # <<>> /\ c.nesn # pOut[1].sn
-        acked   == CASE out = "ok"               -> ackable
+        acked   == CASE out = "ok"               -> ackable /\ (Rsv(c.pdu) => ackC)
                      [] out \in {"mic", "nobuf"} -> ackable /\ ackC
                      [] OTHER                    -> FALSE
         retx    == pOut # <<>> /\ ~acked
@@ -123,7 +151,11 @@ Answer(c, out, ackC, dataC) ==
 
 Wire(a) == [sn |-> a.sn, nesn |-> a.nesn, pdu |-> a.pdu, rxinc |-> a.rxinc, txinc |-> a.txinc]
 
-Exchange(c, out, ackC, dataC) ==
+\* the accepted PDUs not yet read after the connection event (before the upper layer's view settles it)
+StoredAfter(c, out, accC) ==
+    IF out # "lost" /\ Answer(c, out, TRUE, TRUE, accC).rxinc = 1 THEN Append(stored, c.pdu) ELSE stored
+
+Exchange(c, out, ackC, dataC, accC, vis) ==
     /\ air = <<>>
     /\ CentralSends(c)
     /\ out \in Outcomes
@@ -131,11 +163,14 @@ Exchange(c, out, ackC, dataC) ==
     /\ (out = "nobuf" /\ RoomRule) => stored # <<>>     \* an empty receive buffer has room for a PDU
     /\ cCur'  = <<c.pdu>>
     /\ cData' = IF cCur = <<>> /\ IsData(c.pdu) THEN Append(cData, c.pdu) ELSE cData
+    /\ LET s == StoredAfter(c, out, accC) IN
+       /\ Settled(s, vis)
+       /\ stored'  = IF vis THEN s ELSE <<>>
+       /\ dropped' = IF vis THEN dropped ELSE dropped \o s
     /\ IF out = "lost"
-       THEN UNCHANGED <<pOut, pSent, pSn, pNesn, stored, rxCtr, txCtr, air>>
-       ELSE LET a == Answer(c, out, ackC, dataC) IN
+       THEN UNCHANGED <<pOut, pSent, pSn, pNesn, rxCtr, txCtr, air>>
+       ELSE LET a == Answer(c, out, ackC, dataC, accC) IN
             /\ pNesn'  = a.nesn
-            /\ stored' = IF a.rxinc = 1 THEN Append(stored, c.pdu) ELSE stored
             /\ rxCtr'  = rxCtr + a.rxinc
             /\ txCtr'  = txCtr + a.txinc
             /\ pOut'   = <<[sn |-> a.sn, pdu |-> a.pdu]>>
@@ -160,38 +195,48 @@ CentralRx(pout) ==
     /\ UNCHANGED <<cData, pvars>>
 
 -----------------------------------------------------------------------------
-(* bounded instance for model checking: PDU k has length k, LLID 2 (start) *)
-MkPdu(k) == [id |-> k, len |-> k, llid |-> 2]
+(* bounded instance for model checking: PDU k has length k, LLID 2 (start) or the reserved LLID 0 *)
+MkPdu(k)  == [id |-> k, len |-> k, llid |-> 2]
+MkPdu0(k) == [id |-> k, len |-> k, llid |-> 0]
+CPdus     == {Empty, Empty0} \cup {MkPdu(k) : k \in 1..MaxC} \cup {MkPdu0(k) : k \in 1..MaxC}
 
 Next ==
     \/ /\ Len(committed) < MaxP
        /\ Commit(MkPdu(Len(committed) + 1), Len(committed) - txCtr < TxCap)
-    \/ \E p \in {Empty} \cup {MkPdu(k) : k \in 1..MaxC} : Read(p)
-    \/ \E p \in {Empty} \cup {MkPdu(k) : k \in 1..MaxC}, out \in Outcomes, ackC, dataC \in BOOLEAN :
+    \/ \E p \in CPdus, vis \in BOOLEAN : Read(p, vis)
+    \/ \E p \in CPdus, out \in Outcomes, ackC, dataC, accC, vis \in BOOLEAN :
           /\ IF Len(stored) >= RxCap THEN out \in {"lost", "nobuf"} ELSE out # "nobuf"
-          /\ Exchange([sn |-> cSn, nesn |-> cNesn, pdu |-> p], out, ackC, dataC)
+          /\ Exchange([sn |-> cSn, nesn |-> cNesn, pdu |-> p], out, ackC, dataC, accC, vis)
     \/ \E pout \in POutcomes : CentralRx(pout)
 
 Spec == Init /\ [][Next]_vars
 
 -----------------------------------------------------------------------------
 (* the listed properties *)
-Pdus == [id : 0..(MaxC + MaxP), len : 0..(MaxC + MaxP), llid : 1..3]
+Pdus == [id : 0..(MaxC + MaxP), len : 0..(MaxC + MaxP), llid : 0..3]
 TypeOK ==
     /\ cSn \in 0..1 /\ cNesn \in 0..1 /\ pSn \in 0..1 /\ pNesn \in 0..1
     /\ cCur \in Seq(Pdus) /\ Len(cCur) <= 1
     /\ cData \in Seq(Pdus) /\ cGot \in Seq(Pdus) /\ committed \in Seq(Pdus)
-    /\ stored \in Seq(Pdus) /\ delivered \in Seq(Pdus)
+    /\ stored \in Seq(Pdus) /\ delivered \in Seq(Pdus) /\ dropped \in Seq(Pdus)
     /\ Len(pOut) <= 1 /\ Len(air) <= 1
     /\ cAcked \in Nat /\ pSent \in Nat /\ rxCtr \in Nat /\ txCtr \in Nat
 
 Accepted == delivered \o stored
+NTaken   == Len(delivered) + Len(stored) + Len(dropped)      \* non-empty PDUs the peripheral acknowledged as new
+InSeq(p, s) == \E i \in 1..Len(s) : s[i] = p
 
-\* C15: every new PDU from the central reaches the upper layer exactly once and in order
-DeliveredPrefix == Accepted = SubSeq(cData, 1, Len(Accepted))
+\* C15: every new PDU from the central reaches the upper layer exactly once and in order; only PDUs with the
+\* reserved LLID may be dropped on the way
+DeliveredPrefix ==
+    /\ NTaken <= Len(cData)
+    /\ AllRsv(dropped)
+    /\ LET log == SubSeq(cData, 1, NTaken) IN
+       /\ SelectSeq(log, LAMBDA p : InSeq(p, dropped))  = dropped
+       /\ SelectSeq(log, LAMBDA p : ~InSeq(p, dropped)) = Accepted
 
-\* C15 (last sentence), C17: the central never believes a PDU delivered that the peripheral did not store
-AckOnlyAfterReceipt == cAcked <= Len(Accepted)
+\* C15 (last sentence), C17: the central never believes a PDU delivered that the peripheral did not take
+AckOnlyAfterReceipt == cAcked <= NTaken
 
 \* C15: the central gets the committed PDUs in order, exactly once, and the peripheral considers a
 \* PDU delivered (frees it, advances its counter) only after the central really accepted it
@@ -199,7 +244,7 @@ CentralGotPrefix  == cGot = SubSeq(committed, 1, Len(cGot))
 DeliveredAfterAck == txCtr <= Len(cGot)
 
 \* C16: the counter used for a data PDU equals its ghost counter (id - 1) on both sides
-RxCounterInStep == rxCtr = Len(Accepted)
+RxCounterInStep == rxCtr = NTaken
 TxCounterInStep ==
     /\ pSent = txCtr + (IF pOut # <<>> /\ IsData(pOut[1].pdu) THEN 1 ELSE 0)
     /\ (pOut # <<>> /\ IsData(pOut[1].pdu)) => pOut[1].pdu = committed[txCtr + 1]
@@ -209,14 +254,16 @@ TxCounterInStep ==
 NoAckWithoutStore ==
     [][pNesn' # pNesn =>
           /\ cCur' # <<>>
-          /\ IF IsData(cCur'[1]) THEN stored' = Append(stored, cCur'[1]) /\ rxCtr' = rxCtr + 1
-                                 ELSE stored' = stored /\ rxCtr' = rxCtr]_vars
+          /\ IF IsData(cCur'[1])
+             THEN /\ NTaken' = NTaken + 1 /\ rxCtr' = rxCtr + 1
+                  /\ Real(stored') = IF Rsv(cCur'[1]) THEN Real(stored) ELSE Append(Real(stored), cCur'[1])
+             ELSE NTaken' = NTaken /\ Real(stored') = Real(stored) /\ rxCtr' = rxCtr]_vars
 
 \* C16 as a step property: exactly one increment per newly stored / newly acknowledged data PDU
 CountersStep ==
-    [][/\ rxCtr' # rxCtr => (rxCtr' = rxCtr + 1 /\ pNesn' # pNesn /\ Accepted' = Append(Accepted, cData'[rxCtr']))
+    [][/\ rxCtr' # rxCtr => (rxCtr' = rxCtr + 1 /\ pNesn' # pNesn /\ NTaken' = NTaken + 1 /\ cCur' = <<cData'[rxCtr']>>)
        /\ txCtr' # txCtr => (txCtr' = txCtr + 1 /\ pOut # <<>> /\ pOut[1].pdu = committed[txCtr'] /\ cNesn # pOut[1].sn)
-       /\ Len(Accepted') > Len(Accepted) => rxCtr' = rxCtr + 1]_vars
+       /\ NTaken' # NTaken => (NTaken' = NTaken + 1 /\ rxCtr' = rxCtr + 1)]_vars
 
 \* C15: a PDU is repeated until the central's NESN acknowledges it
 RetransmitUntilAck ==
